@@ -262,7 +262,7 @@ fn case_strategy() -> impl Strategy<Value = TabCase> {
 
 fn fixed_case_strategy() -> impl Strategy<Value = TabCase> {
     let words = vec![
-        "", "g", "ge", "get", "get-", "get-l", "get-led", "get-a", "e", "ex", "exit", "s", "se", "set", "n", "net", "h", "he", "help", "э", "эх", "эхо", "go", "go-", "hel", "hell", "hello", "sec", "secret-cmd", "exe", "x", "гг", "с", "ст", "сто", "стоп", "ста", "старт", "a", "at", "até",
+        "", "g", "ge", "get", "get-", "get-l", "get-led", "get-a", "e", "ex", "exit", "s", "se", "set", "n", "net", "h", "he", "help", "э", "эх", "эхо", "go", "go-", "hel", "hell", "hello", "sec", "secret-cmd", "exe", "x", "гг", "с", "ст", "сто", "стоп", "ста", "старт", "a", "at", "até", "c", "co", "conf",
     ];
     (
         prop_oneof![Just("enum"), Just("group")],
